@@ -30,6 +30,9 @@ DoItem(e) ==
       depfiles == { Realize(cfg, destdir, d) : d \in ToSet(e.deps) } IN
   /\ Need(\A r \in rets : IsPrefix(dir, RootValue(cfg, r.root) \o r.comps),
           "InstalledUnderTheDirectoryOfItsKind", <<e.kind, rets>>)
+  \* kinds with a documented leaf (manN/<basename>, the basename of a source-tree file)
+  /\ Need(e.leaf = <<>> \/ \A r \in rets : RootValue(cfg, r.root) \o r.comps = dir \o e.leaf,
+          "LeafPlacementOfItsKind", <<e.kind, rets>>)
   /\ expected' = expected \cup files \cup depfiles
   /\ UNCHANGED <<cfg, destdir>>
 TraceNext ==
